@@ -49,7 +49,10 @@ import (
 
 var peers = []string{"10.128.0.10", "10.128.0.11", "10.128.0.12", "fd80::10", "10.128.0.2", "10.128.0.3", "10.128.0.20", "fd80::20", "0.0.0.0", "10.128.0.1"}
 var under4 = []string{"1.1.1.1", "8.8.8.8", "70.1.1.1", "192.168.0.5", "172.16.0.9", "10.128.0.99", "10.128.0.1", "10.0.0.1", "10.128.1.0", "10.127.255.255", "192.168.255.255"}
-var under6 = []string{"2001:db8::1", "fd80::99", "fd80::1", "fd81::1", "::ffff:1.1.1.1", "::ffff:10.128.0.99", "::ffff:192.168.0.5", "1::1"}
+// IPv4-mapped entries for the V6 lists: (a) inside my overlay network, (b) denied by the allow lists of the generated
+// configurations, (c) addresses the `block` op blocks, (d) harmless
+var under6 = []string{"2001:db8::1", "fd80::99", "fd80::1", "fd81::1", "::ffff:1.1.1.1", "::ffff:10.128.0.99", "::ffff:192.168.0.5", "1::1",
+	"::ffff:10.128.0.1", "::ffff:192.168.255.255", "::ffff:70.1.1.1", "::ffff:8.8.8.8", "::ffff:70.9.9.1"}
 var ports = []int{4242, 4242, 1, 65535, 0}
 
 func ap4(r *hlib.Rand) string {
@@ -193,7 +196,7 @@ func gen(r *hlib.Rand, n int, tier, profile string, emit func(string, ...any)) {
 			case 8:
 				emit("calc %s", hx(hlib.Pick(r, "10.128.0.10", "10.128.0.11", "10.128.0.12", "10.128.0.20", "10.128.0.99", "10.129.0.1")))
 			case 3:
-				emit("block %s %s", hx(hlib.Pick(r, "10.128.0.12", "10.128.0.2", "10.128.0.10", "10.128.0.11", hlib.Pick(r, peers...))), hlib.Pick(r, ap4(r), "46020202:1000", "46010102:4242"))
+				emit("block %s %s", hx(hlib.Pick(r, "10.128.0.12", "10.128.0.2", "10.128.0.10", "10.128.0.11", hlib.Pick(r, peers...))), hlib.Pick(r, ap4(r), "46020202:1000", "46010102:4242", "46010101:4242", "01010101:4242", "08080808:4242", "46090901:4242"))
 			case 4:
 				emit("delete %s", from())
 			case 5:
